@@ -52,7 +52,7 @@ CHECKS = {
         "outcome must be Ok or a non-empty rendered diagnostic within a polynomial logical-step budget. Held = no unlisted panic site, abort, "
         "budget overrun or watchdog on the executions observed; it is exploration, not proof.",
         "Trusts: tick sites cover all input-dependent loops (others only by the wall-clock watchdog); instrumented build behaves like release; "
-        "known findings are keyed on (file, message) / input-shape signatures listed in known_findings.json.",
+        "known findings are keyed on (file, message) / input-shape signatures listed in known_findings.d/C08.json.",
         "DESIGN.md §5 C08, §2.2, §2.4",
     ),
 }
@@ -230,7 +230,7 @@ def main():
         "checks": checks,
         "not_applicable": na,
         "notes": "Runtime monitoring: every verdict is 'held on the executions observed'. Exit 2 + INCONCLUSIVE is used when a run observed too little or the harness could not build. "
-                 "Known findings and fixes: /verif/known_findings.json. See DESIGN.md.",
+                 "Known findings and fixes: /verif/known_findings.d/<property>.json (open findings with witnesses; repaired ones carry the record \"fixed: property=<id> <commit> <what failed>\"). See DESIGN.md 9.4 / 9.5.",
     }
     with open(os.path.join(HERE, "MANIFEST.json"), "w") as f:
         json.dump(manifest, f, indent=1)
